@@ -389,8 +389,10 @@ def session_outcomes(case, line):
 class Sim:
     """eager replica of Model/ClientTask.v, for steering generators only"""
 
-    def __init__(self, cfg):
+    def __init__(self, cfg, serial=False):
         self.cfg = cfg
+        self.serial = serial          # serial channel: the port is opened synchronously, no Connecting notification
+        self.open_ok = False
         self.ph = 'WaitEnabled'
         self.q = []
         self.blocked = []
@@ -498,9 +500,25 @@ class Sim:
         elif c[0] == 'D':
             self.enabled = False
 
+    def _connect_result(self, ok):
+        self.nl += 1
+        if ok:
+            self.ph = 'Idle'
+            self.tc = 0
+            self.partial = None
+        else:
+            self.ph = 'Waiting'
+            self.until = self.now + self.rcur
+            self.rcur = min(2 * self.rcur, self.cfg['rmax'])
+
     def _saturate(self):
         for _ in range(200):
-            if self.ph in ('Writing', 'InFlight', 'Waiting') and fires_at(self.until) <= self.now:
+            if self.serial and self.ph == 'Connecting':
+                self.nl -= 1                      # no Connecting notification on a serial channel
+                if self.open_ok:
+                    self.rcur = self.cfg['rmin']
+                self._connect_result(self.open_ok)
+            elif self.ph in ('Writing', 'InFlight', 'Waiting') and fires_at(self.until) <= self.now:
                 if self.ph == 'Writing':
                     self.ph = 'InFlight'
                     self.until = self.now + self.req[1]
@@ -523,6 +541,8 @@ class Sim:
         t = s[0]
         if t == 'T':
             self.now += s[1]
+        elif t == 'O':
+            self.open_ok = bool(s[1])
         elif t == 'W':
             self.wfail = True
         elif t == 'V':
@@ -544,15 +564,9 @@ class Sim:
                 self._drop(listener=False)
         elif t in ('CO', 'CE'):
             if self.ph == 'Connecting':
-                self.nl += 1
                 if t == 'CO':
-                    self.ph = 'Idle'
-                    self.tc = 0
-                    self.partial = None
-                else:
-                    self.ph = 'Waiting'
-                    self.until = self.now + self.rcur
-                    self.rcur = min(2 * self.rcur, self.cfg['rmax'])
+                    self.rcur = self.cfg['rmin']
+                self._connect_result(t == 'CO')
         elif t in ('F', 'P', 'Q', 'G', 'Z', 'R') and self.ph in ('Idle', 'InFlight'):
             if t in ('Z', 'R'):
                 if self.ph == 'InFlight':
